@@ -176,7 +176,14 @@ def make_op(rng, tag, tfiles):
                 opts['gf_split'] = True
             if fmt in ('export', 'tigerxml') and rng.random() < 0.3:
                 opts['continuous'] = True
-            return {'fmt': fmt, 'text': text, 'opts': opts}
+            d = {'fmt': fmt, 'text': text, 'opts': opts}
+            if fmt != 'tigerxml' and rng.random() < 0.25:
+                # a compressed input under one of very few path names: other
+                # operations of the session write other content to the same
+                # path before they read it
+                d.update(gz=True, dir=rng.choice(['dirA', 'dirB']),
+                         name=rng.choice(['train', 'corpus']))
+            return d
         if kind == 'read':
             return dict(part(), k='read')
         if kind == 'pipeline':
@@ -478,8 +485,13 @@ def run_session(ctx, si, rng):
                              case, 'second treebank written %s | read alone '
                              '%s' % (str(out).split('|other|')[-1][:300],
                                      str(solo)[:300]))
-        if op['k'] == 'read2' and op['a'].get('gz'):
+        if op['k'] == 'read2' and op['a'].get('gz') and op['b'].get('gz') \
+                and op['a'].get('name') == op['b'].get('name'):
             ctx.stratum('read2: compressed inputs with the same base name')
+        if op['k'] in ('read', 'pipeline') and (op.get('gz') or
+                                                (op.get('a') or {}).get('gz')):
+            ctx.stratum('compressed input under a path that other '
+                        'operations rewrite')
         # read2 == the two single reads
         if op['k'] == 'read2':
             singles = []
